@@ -9,6 +9,7 @@ ID = "C19"
 TITLE = "Plot artists pair every value with its own cell"
 MC = {"quick": [("MC_Export", "MC_Artists.cfg", 4)], "thorough": [("MC_Export", "MC_Artists_thorough.cfg", 16)]}
 TRACE = ("Trace_Cells", "Trace_Cells.cfg")
+REPEAT_EVENTS = 4      # see core.check
 THOROUGH_EXTRA_SEEDS = 2
 REQUIRED = ["held-memory", "held-file", "held-dask", "held-emsopen", "PolyCollection", "Quiver", "holes", "refuse-dims", "refuse-both", "clim-override", "transform-override",
             "array-override", "mode-name", "mode-array", "mode-anon", "quiver-empty",
